@@ -381,8 +381,53 @@ pub fn run(args: &Args) -> Report {
                 check_int_boundary(&mut rep, "until", t, i + v);
             }
         }
+        // a sweep, not only boundary points: 20..24-digit values with every pair of leading digits for
+        // since/until/limit, and limit values over the whole 33..66-bit range
+        {
+            let mut r2 = Rng::new(0x1A7E);
+            let mut big: Vec<String> = vec![];
+            for lead in 18u32..=99 {
+                let tail: String = (0..18).map(|_| (b'0' + r2.below(10) as u8) as char).collect();
+                let v = format!("{lead}{tail}");
+                if v.parse::<u128>().unwrap() > u64::MAX as u128 {
+                    big.push(v);
+                }
+            }
+            for digits in 21usize..=24 {
+                for lead in 1u32..=9 {
+                    let tail: String = (0..digits - 1).map(|_| (b'0' + r2.below(10) as u8) as char).collect();
+                    big.push(format!("{lead}{tail}"));
+                }
+            }
+            for (i, t) in big.iter().enumerate() {
+                check_int_boundary(&mut rep, "since", t, i);
+                check_int_boundary(&mut rep, "until", t, i + 1);
+                check_int_boundary(&mut rep, "limit", t, i + 2);
+            }
+            for bits in 32u32..=66 {
+                let base: u128 = 1u128 << bits;
+                for add in [0u128, 1, 5, 4294967295] {
+                    check_int_boundary(&mut rep, "limit", &format!("{}", base + add), bits as usize);
+                }
+                check_int_boundary(&mut rep, "limit", &format!("{}", base + (r2.next_u64() as u128 % base)), bits as usize);
+            }
+            rep.count_n("int_sweep_values", big.len() as u64);
+        }
         // kinds out of range: rejected or saturated
-        for k in ["65535", "65536", "70000", "4294967296", "18446744073709551616"] {
+        let mut kind_texts: Vec<String> = ["65535", "65536", "70000", "4294967296", "18446744073709551616"].iter().map(|s| s.to_string()).collect();
+        {
+            let mut r2 = Rng::new(0x1A7F);
+            for bits in 16u32..=66 {
+                let base: u128 = 1u128 << bits;
+                kind_texts.push(format!("{}", base + 1));
+                kind_texts.push(format!("{}", base + (r2.next_u64() as u128 % base)));
+            }
+            for lead in 18u32..=99 {
+                let tail: String = (0..18).map(|_| (b'0' + r2.below(10) as u8) as char).collect();
+                kind_texts.push(format!("{lead}{tail}"));
+            }
+        }
+        for k in kind_texts.iter().map(|s| s.as_str()) {
             let text = format!("{{\"kinds\":[1,{k}]}}").into_bytes();
             rep.eval(fnv(&text), true);
             match parse(&text, 4096) {
